@@ -387,6 +387,10 @@ def maxOf (D : Data) : VarId → Option Rat
 
 def allVars : List VarId := [.sed, .pn, .dn, .tn, .ic, .oc]
 
+/-- the variable's reporting precision (`Precision()`): tonnes to 10⁻³, dollars to 10⁻² -/
+def reportingPrecision : VarId → Nat
+  | .ic => 2 | .oc => 2 | _ => 3
+
 /-- `UndoableValue()`: the value the variable would take were the pending command applied -/
 def undoableValue (s : State) (v : VarId) : Rat := total s v + change s v
 
